@@ -55,6 +55,19 @@ def _numeric_dtype(dt):
         return False
 
 
+CLIP_HOOK = [None]
+
+
+class OArr(_np.ndarray):
+    """object ndarray whose clip() can be intercepted by a harness (numpy's
+    own clip on symbolic entries would fork on every element)"""
+
+    def clip(self, a_min=None, a_max=None, *a, **k):
+        if CLIP_HOOK[0] is not None:
+            return CLIP_HOOK[0](self, a_min, a_max)
+        return _np.ndarray.clip(self.view(_np.ndarray), a_min, a_max, *a, **k)
+
+
 def identity(n, dtype=None):
     if dtype is None or _numeric_dtype(dtype):
         return _np.identity(int(n), dtype=object)
@@ -71,7 +84,7 @@ def zeros(shape, dtype=None, **k):
     if dtype is None or _numeric_dtype(dtype):
         out = _np.empty(shape, dtype=object)
         out.fill(0)
-        return out
+        return out.view(OArr)
     return _np.zeros(shape, dtype=dtype, **k)
 
 
@@ -381,7 +394,110 @@ class _Emath:
 emath = _Emath()
 
 
+def _gauss_rational(x):
+    """object array of constant scalars -> (re, im) arrays of Fractions"""
+    re = _np.empty(x.shape, dtype=object)
+    im = _np.empty(x.shape, dtype=object)
+    for idx in _np.ndindex(x.shape):
+        v = x[idx]
+        if isinstance(v, Sx):
+            if not v.is_const():
+                raise Unsupported("certified linear algebra needs a constant rational matrix")
+            c = v.const()
+            re[idx], im[idx] = (c if isinstance(c, tuple) else (c, Fraction(0)))
+        elif isinstance(v, complex):
+            re[idx], im[idx] = alg.to_fraction(v.real), alg.to_fraction(v.imag)
+        else:
+            re[idx], im[idx] = alg.to_fraction(v), Fraction(0)
+    return re, im
+
+
+def _scale_int(re, im):
+    den = 1
+    for a in list(re.flat) + list(im.flat):
+        den = den * a.denominator // _math.gcd(den, a.denominator)
+    R = _np.array([[int(v * den) for v in row] for row in re.tolist()], dtype=_np.int64).reshape(re.shape)
+    I = _np.array([[int(v * den) for v in row] for row in im.tolist()], dtype=_np.int64).reshape(im.shape)
+    return R, I, den
+
+
+def _cmul(Ar, Ai, Br, Bi):
+    return Ar @ Br - Ai @ Bi, Ar @ Bi + Ai @ Br
+
+
+def _rationalise(M, maxden=10**6):
+    re = _np.empty(M.shape, dtype=object)
+    im = _np.empty(M.shape, dtype=object)
+    for idx in _np.ndindex(M.shape):
+        z = complex(M[idx])
+        re[idx] = Fraction(z.real).limit_denominator(maxden)
+        im[idx] = Fraction(z.imag).limit_denominator(maxden)
+    return re, im
+
+
+def _to_sx_array(re, im):
+    out = _np.empty(re.shape, dtype=object)
+    for idx in _np.ndindex(re.shape):
+        r, i = re[idx], im[idx]
+        if i == 0:
+            out[idx] = int(r) if r.denominator == 1 else Sx(alg.pconst(r))
+        else:
+            out[idx] = Sx(alg.pconst(r), alg.pconst(i))
+    return out
+
+
+CERT = {"pinv": 0, "solve": 0}
+
+
+def certified_pinv(A):
+    """Moore-Penrose inverse of a constant Gaussian-rational matrix: computed
+    numerically, rationalised, then certified exactly (integer arithmetic) by
+    the four Penrose identities."""
+    are, aim = _gauss_rational(_np.asarray(A, dtype=object))
+    Ar, Ai, da = _scale_int(are, aim)
+    num = _np.linalg.pinv(Ar.astype(float) / da + 1j * (Ai.astype(float) / da))
+    xre, xim = _rationalise(num)
+    Xr, Xi, dx = _scale_int(xre, xim)
+    # A X A = A  <=>  Ar' Xr' Ar' = da*dx * Ar'   (primes: scaled)
+    AXr, AXi = _cmul(Ar, Ai, Xr, Xi)
+    AXAr, AXAi = _cmul(AXr, AXi, Ar, Ai)
+    ok = (AXAr == da * dx * Ar).all() and (AXAi == da * dx * Ai).all()
+    XAr, XAi = _cmul(Xr, Xi, Ar, Ai)
+    XAXr, XAXi = _cmul(XAr, XAi, Xr, Xi)
+    ok = ok and (XAXr == da * dx * Xr).all() and (XAXi == da * dx * Xi).all()
+    ok = ok and (AXr == AXr.T).all() and (AXi == -AXi.T).all()
+    ok = ok and (XAr == XAr.T).all() and (XAi == -XAi.T).all()
+    if not ok:
+        raise Unsupported("pseudo-inverse could not be certified exactly")
+    CERT["pinv"] += 1
+    return _to_sx_array(xre, xim)
+
+
+def certified_solve(A, b):
+    are, aim = _gauss_rational(_np.asarray(A, dtype=object))
+    bre, bim = _gauss_rational(_np.asarray(b, dtype=object).reshape(-1, 1))
+    Ar, Ai, da = _scale_int(are, aim)
+    Br, Bi, db = _scale_int(bre, bim)
+    num = _np.linalg.solve(Ar.astype(float) / da + 1j * (Ai.astype(float) / da), (Br.astype(float) / db + 1j * (Bi.astype(float) / db)))
+    xre, xim = _rationalise(num)
+    Xr, Xi, dx = _scale_int(xre, xim)
+    AXr, AXi = _cmul(Ar, Ai, Xr, Xi)
+    # A x = b  <=>  db * Ar' Xr' = da*dx * Br'
+    if not ((db * AXr == da * dx * Br).all() and (db * AXi == da * dx * Bi).all()):
+        raise Unsupported("linear solve could not be certified exactly")
+    CERT["solve"] += 1
+    return _to_sx_array(xre, xim).reshape(_np.asarray(b).shape)
+
+
 class _Linalg:
+    @staticmethod
+    def pinv(A, *a, **k):
+        return certified_pinv(A)
+
+    @staticmethod
+    def solve(A, b):
+        return certified_solve(A, b)
+
     def __getattr__(self, n):
         f = getattr(_np.linalg, n)
 
